@@ -185,6 +185,12 @@ namespace
                 else if (style == 2) k = r.pick<int64_t>({K_ENTER, K_UP, K_UP, K_DOWN, K_PRINT, K_LEFT, K_CTRLC});
                 else k = (int64_t)r.below(K_NOISE);
                 if (big && r.chance(1, 6)) k = K_FILL;
+                if (big && r.chance(1, 12))
+                {
+                    // the cursor walks far back into a wide line: the next edits have dozens of characters to their right
+                    int back = (int)r.range(33, 90);
+                    for (int j = 0; j < back; j++) p.ops.push_back({K_LEFT, 0, 0});
+                }
                 if (r.chance(1, longrun ? 2000 : 70)) k = K_REINIT; // the owner restarts the session on the same object: a: new capacity, b: new history depth
                 // a: printable selector / enter variant / unknown byte ; b: noise byte
                 p.ops.push_back({k, r.chance(1, 8) ? (int64_t)(95 + r.below(128)) : (int64_t)r.below(95), (int64_t)r.below(256)});
